@@ -977,7 +977,7 @@ func runQuiescentOnce(in input) (driver.Result, bool) {
 		if ob.nio > prevNio {
 			res.Tags = append(res.Tags, "q-io-error-reported")
 		}
-		if ob.nerrs > prevNerrs && !transient && prevKind != 2 && prevCid < firstInvalid && kind != 2 && (!exists || cid < firstInvalid) {
+		if ob.nerrs > prevNerrs && !transient && w.mid < firstInvalid && prevKind != 2 && prevCid < firstInvalid && kind != 2 && (!exists || cid < firstInvalid) {
 			odd = true
 			noteOdd(in, term, len(steps))
 		}
